@@ -19,8 +19,9 @@ def to_sympy(ctx):
     """a body literal is handed to the algebra as relations that mean exactly the literal: a comparison `t1 op t2` under
     sign s becomes the single relation (t1, op', t2) with op' = negate(op) if s is `not`, op otherwise (`not not` counts
     as positive); an aggregate literal `l opL #agg opR r` becomes (l, opL', A) and (A, opR', r) for one placeholder A
-    that is mapped to the aggregate without its guards -- and a negated aggregate with two guards is given up (a
-    disjunction cannot be expressed); everything else is given up (None)"""
+    that is mapped to the aggregate without its guards -- a negated aggregate with two guards is given up (a
+    disjunction cannot be expressed), and so is a #sum+ aggregate unless all its weights are non-negative numbers (the
+    algebra scales and merges it as a #sum); everything else is given up (None)"""
     sem, m, ex = sem_of(ctx), ctx.m, ctx.ex
     wf = wf_of(ctx)
     A = m.AST
@@ -69,6 +70,20 @@ def to_sympy(ctx):
             ctx.oblige(f"given-up-without-relations#{n}", s, z3.BoolVal(True), kind="frame")
             continue
         n_rel += 1
+        # a #sum+ aggregate is only handed to the algebra (which treats it as a #sum) if it equals a #sum
+        kq = z3.Int("k!sp")
+        elq = at(A.BodyAggregate_elements(atom), kq)
+        wq = at(A.BodyAggregateElement_terms(elq), 0)
+        Sy = m.Sym
+        ctx.oblige(
+            f"sum-plus-only-with-non-negative-numbers#{n}",
+            s,
+            z3.Implies(
+                z3.And(A.is_BodyAggregate(atom), A.BodyAggregate_function(atom) == m.enums["AggregateFunction"][1]["SumPlus"]),
+                z3.ForAll([kq], z3.Implies(z3.And(0 <= kq, kq < ln(A.BodyAggregate_elements(atom))), z3.And(ln(A.BodyAggregateElement_terms(elq)) > 0, A.is_SymbolicTerm(wq), Sy.is_SymNumber(A.SymbolicTerm_symbol(wq)), Sy.sym_number(A.SymbolicTerm_symbol(wq)) >= 0))),
+            ),
+            replay=FB14,
+        )
         items = ex.B.concrete_items(s, r)
         ctx.oblige(f"one-relation-per-result#{n}", s, z3.BoolVal(items is not None and len(items) == len(rels) and len(rels) in (1, 2)), kind="frame", replay=FB14)
         if items is None or len(items) != len(rels):
